@@ -110,6 +110,8 @@ class ParseContract(Contract):
         if not call.args and 's' not in call.kwargs:
             return None
         s = call.arg(0, 's')
+        if call.name == 'set_ansi_str' and isinstance(s, L.AnsiStr):
+            s = str.__str__(s)      # an AnsiStr is a str: what is parsed is its payload (= its rendering, C13)
         if not is_plain_str(L, s):
             return None
         if call.name != 'set_ansi_str' and (len(call.args) > 1):
@@ -182,6 +184,10 @@ def drive(ctx, mon, tier, only_case=None):
             if rng.random() < 0.2:
                 ex.run({'m': 'new', 'cls': 'AnsiString', 'a': ['zz', 'bold']})
                 ex.run({'m': 'set_ansi_str', 'r': len(ex.pool) - 1, 'a': [s]})
+            if rng.random() < 0.1:
+                ex.run({'m': 'new', 'cls': 'AnsiStr', 'a': [s]})
+                ex.run({'m': 'new', 'cls': 'AnsiString', 'a': ['q']})
+                ex.run({'m': 'set_ansi_str', 'r': len(ex.pool) - 1, 'a': [{'$': len(ex.pool) - 2}]})
         elif r < 0.85:
             s = gen_text(rng, sz['maxlen'])
             ex.run({'m': 'new', 'cls': 'AnsiString' if rng.random() < 0.5 else 'AnsiStr', 'a': [s]})
